@@ -1,3 +1,1505 @@
-//! C47 — stub, to be implemented.
-use vcore::Ctx;
-pub fn run(_ctx: &mut Ctx) {}
+//! C47 — relay resource limits hold.
+//!
+//! Statement: a relay never holds more active reservations for one peer than
+//! `max_reservations_per_peer` or in total than `max_reservations`, and never has more circuits
+//! involving one peer than `max_circuits_per_peer` or in total than `max_circuits`, for any sequence
+//! of reservation and circuit requests.
+//!
+//! Two sub-checks:
+//! * `behaviour-direct`: the real `relay::Behaviour` is driven without a Swarm by generated, legal
+//!   sequences of connection and handler events (a small model of the relay `Handler`'s per-request
+//!   life cycle produces them, with per-connection FIFO queues in both directions so that every
+//!   interleaving a Swarm can produce is reachable, including reservation expiry).
+//! * `world`: a real relay Swarm over the simulated transport; the harness plays 2–4 client peers by
+//!   hand on the wire (multistream-select + length-prefixed protobuf) and the oracle only uses the
+//!   status codes the relay sent and the stream/connection lifetimes the harness controls.
+//!
+//! In both, the oracle is a count of reservations/circuits that are *certainly* active (the relay
+//! told the client OK and nothing has ended them), which is a lower bound of what the relay holds;
+//! asserting the bound on it can therefore not raise a false alarm because of bookkeeping delays.
+
+use futures::task::noop_waker;
+use futures::Stream as _;
+use libp2p_core::{ConnectedPoint, Multiaddr};
+use libp2p_identity::PeerId;
+use libp2p_relay as relay;
+use libp2p_swarm::derive_prelude::Either;
+use libp2p_swarm::{
+    behaviour::{ConnectionClosed, ConnectionEstablished, FromSwarm},
+    ConnectionId, NetworkBehaviour, NotifyHandler, Stream, StreamProtocol, ToSwarm,
+};
+use multiaddr::Protocol;
+use proptest::prelude::*;
+use relay::verif::{CircuitReq, HandlerEvent, HandlerIn, ProtoStatus, ReservationReq};
+use relay::CircuitId;
+use serde::{Deserialize, Serialize};
+use serde_json::{json, Value};
+use simswarm::net::MuxCtl;
+use simswarm::world::{release_phantoms, Ev, World};
+use std::cell::RefCell;
+use std::collections::{BTreeSet, VecDeque};
+use std::pin::Pin;
+use std::task::{Context, Poll};
+use std::time::Duration;
+use vcore::refcodec::{lp, pb_bytes, pb_parse, pb_varint, read_uvarint};
+use vcore::simio::Duplex;
+use vcore::{gen, pick, Ctx, Outcome};
+
+// ---------------------------------------------------------------------------------------------
+// shared: limits, the lower-bound oracle
+
+#[derive(Clone, Copy, Debug, Serialize, Deserialize)]
+pub struct Limits {
+    pub max_res: u8,
+    pub max_res_pp: u8,
+    pub max_circ: u8,
+    pub max_circ_pp: u8,
+}
+
+fn limits_strategy(hi: u8) -> impl Strategy<Value = Limits> {
+    (1..=hi, 1..=hi.min(2), 1..=hi, 1..=hi.min(2)).prop_map(|(max_res, max_res_pp, max_circ, max_circ_pp)| Limits { max_res, max_res_pp, max_circ, max_circ_pp })
+}
+
+fn relay_config(l: Limits) -> relay::Config {
+    relay::Config {
+        max_reservations: l.max_res as usize,
+        max_reservations_per_peer: l.max_res_pp as usize,
+        reservation_duration: Duration::from_secs(3600),
+        reservation_rate_limiters: vec![],
+        max_circuits: l.max_circ as usize,
+        max_circuits_per_peer: l.max_circ_pp as usize,
+        max_circuit_duration: Duration::from_secs(3600),
+        max_circuit_bytes: 1 << 30,
+        circuit_src_rate_limiters: vec![],
+    }
+}
+
+const RELAY: usize = 0;
+const NPEERS: usize = 4;
+fn client(i: usize) -> PeerId {
+    gen::peer(1 + (i % NPEERS))
+}
+fn relay_addr() -> Multiaddr {
+    Multiaddr::empty().with(Protocol::Memory(1000))
+}
+fn client_addr(peer: usize, k: usize) -> Multiaddr {
+    Multiaddr::empty().with(Protocol::Memory(2000 + 100 * peer as u64 + k as u64))
+}
+
+/// What is certainly active right now, as (peer index) lists.
+#[derive(Default, Debug)]
+struct Active {
+    /// one entry per active reservation: the reserving peer
+    res: Vec<usize>,
+    /// one entry per established circuit: (source peer, destination peer)
+    circ: Vec<(usize, usize)>,
+    /// peers that hold a reservation confirmed by a request that was in flight when the previous
+    /// reservation of the same connection expired
+    raced: BTreeSet<usize>,
+    /// the most recently established circuit (source, destination), if it is still alive
+    newest: Option<(usize, usize)>,
+}
+
+#[derive(Default)]
+struct Reach {
+    labels: BTreeSet<&'static str>,
+}
+
+/// The statement, literally. Returns the first violated bound.
+fn check_limits(l: Limits, a: &Active, reach: &mut Reach) -> Option<(String, Value)> {
+    let mut res_pp = [0usize; NPEERS];
+    for p in &a.res {
+        res_pp[*p] += 1;
+    }
+    let mut circ_pp = [0usize; NPEERS];
+    for (s, d) in &a.circ {
+        circ_pp[*s] += 1;
+        if d != s {
+            circ_pp[*d] += 1;
+        }
+    }
+    for p in 0..NPEERS {
+        if res_pp[p] == l.max_res_pp as usize {
+            reach.labels.insert("reach:res-per-peer-at-max");
+        }
+        if circ_pp[p] == l.max_circ_pp as usize {
+            reach.labels.insert("reach:circ-per-peer-at-max");
+        }
+    }
+    if a.res.len() == l.max_res as usize {
+        reach.labels.insert("reach:res-total-at-max");
+    }
+    if a.circ.len() == l.max_circ as usize {
+        reach.labels.insert("reach:circ-total-at-max");
+    }
+    let counts = json!({"reservations_per_peer": res_pp, "reservations_total": a.res.len(), "circuits_per_peer": circ_pp, "circuits_total": a.circ.len()});
+    for p in 0..NPEERS {
+        if res_pp[p] > l.max_res_pp as usize {
+            let sig = if a.raced.contains(&p) { "C47:reservations-per-peer-exceeded-after-expiry-during-accept" } else { "C47:reservations-per-peer-exceeded" };
+            return Some((sig.into(), json!({"peer": p, "counts": counts})));
+        }
+    }
+    if a.res.len() > l.max_res as usize {
+        let sig = if !a.raced.is_empty() { "C47:reservations-total-exceeded-after-expiry-during-accept" } else { "C47:reservations-total-exceeded" };
+        return Some((sig.into(), json!({"counts": counts})));
+    }
+    for p in 0..NPEERS {
+        if circ_pp[p] > l.max_circ_pp as usize {
+            let role = match a.newest {
+                Some((s, _)) if s == p => "source",
+                Some((_, d)) if d == p => "destination",
+                _ => "other",
+            };
+            return Some((format!("C47:circuits-per-peer-exceeded-{role}"), json!({"peer": p, "role_in_newest_circuit": role, "counts": counts})));
+        }
+    }
+    if a.circ.len() > l.max_circ as usize {
+        return Some(("C47:circuits-total-exceeded".into(), json!({"counts": counts})));
+    }
+    None
+}
+
+// ---------------------------------------------------------------------------------------------
+// a source of real `libp2p_swarm::Stream` values (they can only be made by a Connection): a
+// thread-local Swarm running `libp2p_stream::Behaviour` with one phantom connection. The relay
+// behaviour never reads or writes the streams it is handed, it only moves them around.
+
+const MINT_PROTO: &str = "/c47/mint";
+
+fn ms_line(s: &str) -> Vec<u8> {
+    let mut line = s.as_bytes().to_vec();
+    line.push(b'\n');
+    lp(&line)
+}
+
+fn write_all(d: &mut Duplex, data: &[u8]) -> bool {
+    use futures::AsyncWrite;
+    let w = noop_waker();
+    let mut cx = Context::from_waker(&w);
+    let mut off = 0;
+    let mut spins = 0;
+    while off < data.len() {
+        match Pin::new(&mut *d).poll_write(&mut cx, &data[off..]) {
+            Poll::Ready(Ok(n)) if n > 0 => off += n,
+            Poll::Ready(_) => return false,
+            Poll::Pending => {
+                spins += 1;
+                if spins > 1000 {
+                    return false;
+                }
+            }
+        }
+    }
+    true
+}
+
+/// Move everything readable right now into `buf`; true when the peer's direction has ended.
+fn drain_into(d: &mut Duplex, buf: &mut Vec<u8>) -> bool {
+    use futures::AsyncRead;
+    let w = noop_waker();
+    let mut cx = Context::from_waker(&w);
+    let mut tmp = [0u8; 4096];
+    loop {
+        match Pin::new(&mut *d).poll_read(&mut cx, &mut tmp) {
+            Poll::Ready(Ok(0)) | Poll::Ready(Err(_)) => return true,
+            Poll::Ready(Ok(n)) => buf.extend_from_slice(&tmp[..n]),
+            Poll::Pending => return false,
+        }
+    }
+}
+
+/// The complete unsigned-varint-prefixed frames at the start of `buf`.
+fn frames(buf: &[u8]) -> Vec<Vec<u8>> {
+    let mut out = vec![];
+    let mut b = buf;
+    while let Some((l, n)) = read_uvarint(b) {
+        let l = l as usize;
+        if b.len() < n + l {
+            break;
+        }
+        out.push(b[n..n + l].to_vec());
+        b = &b[n + l..];
+    }
+    out
+}
+
+struct Mint {
+    world: World<libp2p_stream::Behaviour>,
+    ctl: MuxCtl,
+    incoming: libp2p_stream::IncomingStreams,
+    made: usize,
+}
+
+impl Mint {
+    fn new() -> Option<Mint> {
+        let peers = [gen::peer(RELAY)];
+        let mut world: World<libp2p_stream::Behaviour> = World::new(&peers, |_, _| libp2p_stream::Behaviour::new(), |c| c.with_idle_connection_timeout(Duration::from_secs(86_400)));
+        let mut control = world.nodes[0].swarm.behaviour().new_control();
+        let incoming = control.accept(StreamProtocol::new(MINT_PROTO)).ok()?;
+        if !world.listen(0, relay_addr()) {
+            return None;
+        }
+        world.settle(100, &mut |_, _, _| {});
+        let k = world.incoming_phantom(0, 0, client_addr(9, 0))?;
+        world.settle(100, &mut |_, _, _| {});
+        if !world.resolve_incoming(k, Some(gen::peer(7))) {
+            return None;
+        }
+        world.settle(100, &mut |_, _, _| {});
+        let ctl = world.incoming[k].ctl.clone();
+        Some(Mint { world, ctl, incoming, made: 0 })
+    }
+
+    fn mint(&mut self) -> Option<Stream> {
+        let mut d = self.ctl.remote_open();
+        let mut hello = ms_line("/multistream/1.0.0");
+        hello.extend(ms_line(MINT_PROTO));
+        if !write_all(&mut d, &hello) {
+            return None;
+        }
+        self.world.settle(100, &mut |_, _, _| {});
+        self.world.nodes[0].events.clear();
+        let w = noop_waker();
+        let mut cx = Context::from_waker(&w);
+        match Pin::new(&mut self.incoming).poll_next(&mut cx) {
+            Poll::Ready(Some((_, s))) => {
+                self.made += 1;
+                Some(s)
+            }
+            _ => None,
+        }
+    }
+}
+
+thread_local! {
+    static MINT: RefCell<Option<Mint>> = const { RefCell::new(None) };
+}
+
+fn mint_stream() -> Stream {
+    MINT.with(|m| {
+        let mut m = m.borrow_mut();
+        for _ in 0..3 {
+            // a fresh connection every few thousand streams keeps the muxer bookkeeping small
+            if m.as_ref().map(|x| x.made > 4000).unwrap_or(true) {
+                *m = Mint::new();
+            }
+            if let Some(s) = m.as_mut().and_then(|x| x.mint()) {
+                return s;
+            }
+            *m = None;
+        }
+        panic!("C47 harness: cannot mint a libp2p_swarm::Stream");
+    })
+}
+
+// ---------------------------------------------------------------------------------------------
+// sub-check A: the behaviour driven directly
+
+#[derive(Clone, Copy, Debug, PartialEq, Eq, Serialize, Deserialize)]
+pub struct Outcomes {
+    /// the response to a RESERVE (accept or deny) can be written to the client
+    pub res_ok: bool,
+    /// the destination answers STOP CONNECT with OK
+    pub stop_ok: bool,
+    /// the OK response to a CONNECT can be written to the source
+    pub acc_ok: bool,
+    /// an error response to a CONNECT can be written to the source
+    pub deny_ok: bool,
+}
+
+#[derive(Clone, Debug, PartialEq, Eq, Serialize, Deserialize)]
+pub enum OpA {
+    /// a new connection of client peer `peer` is established
+    Open { peer: u8 },
+    /// an open connection closes
+    Close { conn: u16 },
+    /// a RESERVE request arrives on a connection; `sync`: run everything to completion afterwards
+    Reserve { conn: u16, sync: Option<Outcomes> },
+    /// a CONNECT request for destination peer `dst` arrives on a connection
+    Connect { conn: u16, dst: u8, sync: Option<Outcomes> },
+    /// the next event emitted by a connection's handler reaches the behaviour
+    ToBeh { conn: u16 },
+    /// the next command of the behaviour reaches a connection's handler
+    ToHandler { conn: u16 },
+    /// one pending I/O future of a handler completes
+    Progress { conn: u16, which: u16, ok: bool },
+    /// the reservation timer of a connection fires
+    Timeout { conn: u16 },
+    /// a running circuit ends (stream closed or error)
+    EndCircuit { pick: u16, err: bool },
+    /// deliver all queued events and commands (no future completes)
+    Flush,
+    /// run everything to completion
+    Quiesce(Outcomes),
+}
+
+#[derive(Clone, Debug, Serialize, Deserialize)]
+pub struct CaseA {
+    pub limits: Limits,
+    pub ops: Vec<OpA>,
+}
+
+fn outcomes_strategy() -> impl Strategy<Value = Outcomes> {
+    prop_oneof![
+        6 => Just(Outcomes { res_ok: true, stop_ok: true, acc_ok: true, deny_ok: true }),
+        2 => (any::<bool>(), any::<bool>(), any::<bool>(), any::<bool>()).prop_map(|(res_ok, stop_ok, acc_ok, deny_ok)| Outcomes { res_ok, stop_ok, acc_ok, deny_ok }),
+    ]
+}
+
+fn op_a_strategy() -> impl Strategy<Value = OpA> {
+    let sync = prop_oneof![3 => outcomes_strategy().prop_map(Some), 1 => Just(None)];
+    let sync2 = prop_oneof![3 => outcomes_strategy().prop_map(Some), 1 => Just(None)];
+    prop_oneof![
+        4 => (0u8..NPEERS as u8).prop_map(|peer| OpA::Open { peer }),
+        1 => any::<u16>().prop_map(|conn| OpA::Close { conn }),
+        6 => (any::<u16>(), sync).prop_map(|(conn, sync)| OpA::Reserve { conn, sync }),
+        7 => (any::<u16>(), 0u8..NPEERS as u8, sync2).prop_map(|(conn, dst, sync)| OpA::Connect { conn, dst, sync }),
+        3 => any::<u16>().prop_map(|conn| OpA::ToBeh { conn }),
+        3 => any::<u16>().prop_map(|conn| OpA::ToHandler { conn }),
+        3 => (any::<u16>(), any::<u16>(), prop::bool::weighted(0.8)).prop_map(|(conn, which, ok)| OpA::Progress { conn, which, ok }),
+        1 => any::<u16>().prop_map(|conn| OpA::Timeout { conn }),
+        2 => (any::<u16>(), any::<bool>()).prop_map(|(pick, err)| OpA::EndCircuit { pick, err }),
+        1 => Just(OpA::Flush),
+        1 => outcomes_strategy().prop_map(OpA::Quiesce),
+    ]
+}
+
+fn case_a_strategy(max_ops: usize, hi: u8) -> impl Strategy<Value = CaseA> {
+    (limits_strategy(hi), prop::collection::vec(op_a_strategy(), 4..max_ops)).prop_map(|(limits, ops)| CaseA { limits, ops })
+}
+
+enum ResFut {
+    Accepting,
+    Denying(ProtoStatus),
+}
+
+struct PConnect {
+    circuit_id: CircuitId,
+    req: CircuitReq,
+    src_peer: PeerId,
+    src_conn: ConnectionId,
+}
+
+/// The relay `Handler` of one connection, reduced to what decides which events it may emit.
+struct ConnA {
+    peer: usize,
+    id: ConnectionId,
+    open: bool,
+    endpoint: ConnectedPoint,
+    /// `Handler::active_reservation.is_some()`
+    active_res: bool,
+    /// the current reservation was confirmed by a request that was already in flight when the
+    /// previous reservation of this connection expired
+    raced: bool,
+    /// the reservation timer fired while a request was in flight (cleared by the next request that
+    /// finds nothing in flight)
+    expired_during_accept: bool,
+    res_fut: Option<ResFut>,
+    to_beh: VecDeque<HandlerEvent>,
+    to_handler: VecDeque<HandlerIn>,
+    connects: Vec<PConnect>,
+    deny_futs: Vec<(Option<CircuitId>, PeerId, ProtoStatus)>,
+    accept_futs: Vec<(CircuitId, PeerId)>,
+    circuits: Vec<(CircuitId, PeerId)>,
+}
+
+struct WorldA {
+    limits: Limits,
+    beh: relay::Behaviour,
+    conns: Vec<ConnA>,
+    /// circuit id -> index of the destination connection (learned when the destination's handler
+    /// receives `NegotiateOutboundConnect`)
+    circ_dst: Vec<(CircuitId, usize)>,
+    newest: Option<CircuitId>,
+    trace: Vec<String>,
+    reach: Reach,
+    res_established: u32,
+    circ_established: u32,
+    denied_limit: u32,
+    panic: Option<String>,
+}
+
+fn peer_index(p: &PeerId) -> Option<usize> {
+    (0..NPEERS).find(|i| client(*i) == *p)
+}
+
+impl WorldA {
+    fn new(limits: Limits) -> Self {
+        WorldA {
+            limits,
+            beh: relay::Behaviour::new(gen::peer(RELAY), relay_config(limits)),
+            conns: vec![],
+            circ_dst: vec![],
+            newest: None,
+            trace: vec![],
+            reach: Reach::default(),
+            res_established: 0,
+            circ_established: 0,
+            denied_limit: 0,
+            panic: None,
+        }
+    }
+
+    fn open_conns(&self) -> Vec<usize> {
+        (0..self.conns.len()).filter(|i| self.conns[*i].open).collect()
+    }
+
+    fn conn_by_id(&self, id: ConnectionId) -> Option<usize> {
+        self.conns.iter().position(|c| c.id == id)
+    }
+
+    /// collect everything the behaviour wants to do right now
+    fn pump(&mut self) {
+        let w = noop_waker();
+        let mut cx = Context::from_waker(&w);
+        while let Poll::Ready(action) = self.beh.poll(&mut cx) {
+            match action {
+                ToSwarm::NotifyHandler { handler: NotifyHandler::One(id), event: Either::Left(cmd), .. } => {
+                    match &cmd {
+                        HandlerIn::AcceptReservationReq { .. } => self.trace.push(format!("  beh -> {id:?}: AcceptReservationReq")),
+                        HandlerIn::DenyReservationReq { status, .. } => {
+                            if *status == ProtoStatus::ResourceLimitExceeded {
+                                self.denied_limit += 1;
+                                self.reach.labels.insert("deny:reservation-limit");
+                            }
+                            self.trace.push(format!("  beh -> {id:?}: DenyReservationReq {status:?}"));
+                        }
+                        HandlerIn::DenyCircuitReq { circuit_id, status, .. } => {
+                            if circuit_id.is_none() && *status == ProtoStatus::ResourceLimitExceeded {
+                                self.denied_limit += 1;
+                                self.reach.labels.insert("deny:circuit-limit");
+                            }
+                            if circuit_id.is_none() && *status == ProtoStatus::NoReservation {
+                                self.reach.labels.insert("deny:circuit-no-reservation");
+                            }
+                            self.trace.push(format!("  beh -> {id:?}: DenyCircuitReq {circuit_id:?} {status:?}"));
+                        }
+                        HandlerIn::NegotiateOutboundConnect { circuit_id, .. } => self.trace.push(format!("  beh -> {id:?}: NegotiateOutboundConnect {circuit_id:?}")),
+                        HandlerIn::AcceptAndDriveCircuit { circuit_id, .. } => self.trace.push(format!("  beh -> {id:?}: AcceptAndDriveCircuit {circuit_id:?}")),
+                        HandlerIn::SetStatus { .. } => {}
+                    }
+                    match self.conn_by_id(id) {
+                        Some(i) if self.conns[i].open => self.conns[i].to_handler.push_back(cmd),
+                        // the Swarm drops commands for connections that no longer exist
+                        _ => drop(cmd),
+                    }
+                }
+                ToSwarm::GenerateEvent(ev) => {
+                    let s = format!("{ev:?}");
+                    self.trace.push(format!("  event {}", s.chars().take(90).collect::<String>()));
+                }
+                _ => {}
+            }
+        }
+    }
+
+    fn emit(&mut self, i: usize, ev: HandlerEvent) {
+        self.conns[i].to_beh.push_back(ev);
+    }
+
+    fn deliver_to_beh(&mut self, i: usize) -> bool {
+        let Some(ev) = self.conns[i].to_beh.pop_front() else { return false };
+        let (peer, id) = (client(self.conns[i].peer), self.conns[i].id);
+        self.trace.push(format!("{id:?} (peer {}) -> beh: {}", self.conns[i].peer, format!("{ev:?}").chars().take(100).collect::<String>()));
+        let beh = &mut self.beh;
+        if let Err(p) = vcore::runner::catch(move || beh.on_connection_handler_event(peer, id, Either::Left(ev))) {
+            self.panic = Some(p);
+            return true;
+        }
+        self.pump();
+        true
+    }
+
+    fn deliver_to_handler(&mut self, i: usize) -> bool {
+        let Some(cmd) = self.conns[i].to_handler.pop_front() else { return false };
+        let c = &mut self.conns[i];
+        match cmd {
+            HandlerIn::AcceptReservationReq { inbound_reservation_req, .. } => {
+                drop::<ReservationReq>(inbound_reservation_req);
+                c.res_fut = Some(ResFut::Accepting);
+            }
+            HandlerIn::DenyReservationReq { inbound_reservation_req, status } => {
+                drop::<ReservationReq>(inbound_reservation_req);
+                c.res_fut = Some(ResFut::Denying(status));
+            }
+            HandlerIn::NegotiateOutboundConnect { circuit_id, inbound_circuit_req, src_peer_id, src_connection_id } => {
+                c.connects.push(PConnect { circuit_id, req: inbound_circuit_req, src_peer: src_peer_id, src_conn: src_connection_id });
+                self.circ_dst.push((circuit_id, i));
+            }
+            HandlerIn::DenyCircuitReq { circuit_id, inbound_circuit_req, status } => {
+                c.deny_futs.push((circuit_id, inbound_circuit_req.dst(), status));
+            }
+            HandlerIn::AcceptAndDriveCircuit { circuit_id, dst_peer_id, inbound_circuit_req, dst_stream, dst_pending_data } => {
+                drop((inbound_circuit_req, dst_stream, dst_pending_data));
+                c.accept_futs.push((circuit_id, dst_peer_id));
+            }
+            HandlerIn::SetStatus { .. } => {}
+        }
+        true
+    }
+
+    /// a RESERVE of connection `i` has been emitted and its response has not been written yet:
+    /// its event is still queued, or its accept command is queued, or the response is being written
+    fn accept_in_flight(&self, i: usize) -> bool {
+        let cn = &self.conns[i];
+        cn.to_beh.iter().any(|e| matches!(e, HandlerEvent::ReservationReqReceived { .. }))
+            || cn.to_handler.iter().any(|c| matches!(c, HandlerIn::AcceptReservationReq { .. }))
+            || matches!(cn.res_fut, Some(ResFut::Accepting))
+    }
+
+    fn n_futs(&self, i: usize) -> usize {
+        let c = &self.conns[i];
+        c.res_fut.is_some() as usize + c.connects.len() + c.deny_futs.len() + c.accept_futs.len()
+    }
+
+    /// complete the `which`-th pending future of connection `i`
+    fn progress(&mut self, i: usize, mut which: usize, ok: bool) {
+        let c = &mut self.conns[i];
+        if c.res_fut.is_some() {
+            if which == 0 {
+                let fut = c.res_fut.take().unwrap();
+                let ev = match (fut, ok) {
+                    (ResFut::Accepting, true) => {
+                        let renewed = c.active_res;
+                        c.active_res = true;
+                        if !renewed {
+                            c.raced = c.expired_during_accept;
+                        }
+                        self.res_established += 1;
+                        HandlerEvent::ReservationReqAccepted { renewed }
+                    }
+                    (ResFut::Accepting, false) => HandlerEvent::ReservationReqAcceptFailed { error: relay::inbound::hop::Error::StreamClosed },
+                    (ResFut::Denying(status), true) => HandlerEvent::ReservationReqDenied { status },
+                    (ResFut::Denying(_), false) => HandlerEvent::ReservationReqDenyFailed { error: relay::inbound::hop::Error::StreamClosed },
+                };
+                self.emit(i, ev);
+                return;
+            }
+            which -= 1;
+        }
+        if which < c.connects.len() {
+            let pc = c.connects.remove(which);
+            let ev = if ok {
+                HandlerEvent::OutboundConnectNegotiated {
+                    circuit_id: pc.circuit_id,
+                    src_peer_id: pc.src_peer,
+                    src_connection_id: pc.src_conn,
+                    inbound_circuit_req: pc.req,
+                    dst_stream: mint_stream(),
+                    dst_pending_data: Default::default(),
+                }
+            } else {
+                let error = relay::outbound::stop::Error::ResourceLimitExceeded;
+                HandlerEvent::OutboundConnectNegotiationFailed {
+                    circuit_id: pc.circuit_id,
+                    src_peer_id: pc.src_peer,
+                    src_connection_id: pc.src_conn,
+                    inbound_circuit_req: pc.req,
+                    status: relay::verif::stop_error_status(&error),
+                    error,
+                }
+            };
+            self.emit(i, ev);
+            return;
+        }
+        which -= c.connects.len();
+        if which < c.deny_futs.len() {
+            let (circuit_id, dst_peer_id, status) = c.deny_futs.remove(which);
+            let ev = if ok {
+                HandlerEvent::CircuitReqDenied { circuit_id, dst_peer_id, status }
+            } else {
+                HandlerEvent::CircuitReqDenyFailed { circuit_id, dst_peer_id, error: relay::inbound::hop::Error::StreamClosed }
+            };
+            self.emit(i, ev);
+            return;
+        }
+        which -= c.deny_futs.len();
+        if which < c.accept_futs.len() {
+            let (circuit_id, dst_peer_id) = c.accept_futs.remove(which);
+            let ev = if ok {
+                c.circuits.push((circuit_id, dst_peer_id));
+                self.circ_established += 1;
+                self.newest = Some(circuit_id);
+                HandlerEvent::CircuitReqAccepted { circuit_id, dst_peer_id }
+            } else {
+                HandlerEvent::CircuitReqAcceptFailed { circuit_id, dst_peer_id, error: relay::inbound::hop::Error::StreamClosed }
+            };
+            self.emit(i, ev);
+        }
+    }
+
+    fn flush(&mut self) {
+        for _ in 0..200 {
+            let mut progressed = false;
+            for i in 0..self.conns.len() {
+                if !self.conns[i].open {
+                    continue;
+                }
+                while self.panic.is_none() && self.deliver_to_beh(i) {
+                    progressed = true;
+                }
+                while self.deliver_to_handler(i) {
+                    progressed = true;
+                }
+            }
+            if !progressed || self.panic.is_some() {
+                return;
+            }
+        }
+    }
+
+    fn quiesce(&mut self, o: Outcomes) {
+        for _ in 0..200 {
+            self.flush();
+            if self.panic.is_some() {
+                return;
+            }
+            let mut progressed = false;
+            for i in 0..self.conns.len() {
+                if !self.conns[i].open {
+                    continue;
+                }
+                while self.n_futs(i) > 0 {
+                    progressed = true;
+                    let c = &self.conns[i];
+                    let ok = if c.res_fut.is_some() {
+                        o.res_ok
+                    } else if !c.connects.is_empty() {
+                        o.stop_ok
+                    } else if !c.deny_futs.is_empty() {
+                        o.deny_ok
+                    } else {
+                        o.acc_ok
+                    };
+                    self.progress(i, 0, ok);
+                }
+            }
+            if !progressed {
+                return;
+            }
+        }
+    }
+
+    fn request_values(&self) -> (Duration, Duration, u64) {
+        (Duration::from_secs(3600), Duration::from_secs(3600), 1 << 30)
+    }
+
+    fn apply(&mut self, op: &OpA) {
+        match op {
+            OpA::Open { peer } => {
+                let peer = *peer as usize % NPEERS;
+                let of_peer = self.conns.iter().filter(|c| c.open && c.peer == peer).count();
+                if of_peer >= 3 || self.open_conns().len() >= 9 {
+                    return;
+                }
+                let id = ConnectionId::new_unchecked(self.conns.len() + 1);
+                let endpoint = ConnectedPoint::Listener { local_addr: relay_addr(), send_back_addr: client_addr(peer, self.conns.len()) };
+                self.trace.push(format!("open {id:?} of peer {peer}"));
+                self.beh.on_swarm_event(FromSwarm::ConnectionEstablished(ConnectionEstablished {
+                    peer_id: client(peer),
+                    connection_id: id,
+                    endpoint: &endpoint,
+                    failed_addresses: &[],
+                    other_established: of_peer,
+                }));
+                self.conns.push(ConnA {
+                    peer,
+                    id,
+                    open: true,
+                    endpoint,
+                    active_res: false,
+                    raced: false,
+                    expired_during_accept: false,
+                    res_fut: None,
+                    to_beh: Default::default(),
+                    to_handler: Default::default(),
+                    connects: vec![],
+                    deny_futs: vec![],
+                    accept_futs: vec![],
+                    circuits: vec![],
+                });
+                self.pump();
+            }
+            OpA::Close { conn } => {
+                let open = self.open_conns();
+                if open.is_empty() {
+                    return;
+                }
+                let i = open[pick(*conn, open.len())];
+                // everything the handler has already emitted is delivered before the close
+                while self.panic.is_none() && self.deliver_to_beh(i) {}
+                if self.panic.is_some() {
+                    return;
+                }
+                let c = &mut self.conns[i];
+                c.open = false;
+                c.active_res = false;
+                c.res_fut = None;
+                c.to_handler.clear();
+                c.connects.clear();
+                c.deny_futs.clear();
+                c.accept_futs.clear();
+                c.circuits.clear();
+                let (peer, id, endpoint) = (c.peer, c.id, c.endpoint.clone());
+                let remaining = self.conns.iter().filter(|c| c.open && c.peer == peer).count();
+                self.trace.push(format!("close {id:?} of peer {peer}"));
+                self.beh.on_swarm_event(FromSwarm::ConnectionClosed(ConnectionClosed { peer_id: client(peer), connection_id: id, endpoint: &endpoint, cause: None, remaining_established: remaining }));
+                self.pump();
+            }
+            OpA::Reserve { conn, sync } => {
+                let open = self.open_conns();
+                if open.is_empty() {
+                    return;
+                }
+                let i = open[pick(*conn, open.len())];
+                let (a, b, c) = self.request_values();
+                let req = ReservationReq::verif_new(mint_stream(), a, b, c);
+                let renewed = self.conns[i].active_res;
+                if !self.accept_in_flight(i) {
+                    self.conns[i].expired_during_accept = false;
+                }
+                let endpoint = self.conns[i].endpoint.clone();
+                self.trace.push(format!("RESERVE on {:?} (peer {})", self.conns[i].id, self.conns[i].peer));
+                self.emit(i, HandlerEvent::ReservationReqReceived { inbound_reservation_req: req, endpoint, renewed });
+                if let Some(o) = sync {
+                    self.quiesce(*o);
+                }
+            }
+            OpA::Connect { conn, dst, sync } => {
+                let open = self.open_conns();
+                if open.is_empty() {
+                    return;
+                }
+                let i = open[pick(*conn, open.len())];
+                let dst = *dst as usize % NPEERS;
+                let (_, b, c) = self.request_values();
+                let req = CircuitReq::verif_new(client(dst), mint_stream(), b, c);
+                let endpoint = self.conns[i].endpoint.clone();
+                self.trace.push(format!("CONNECT on {:?} (peer {}) to peer {dst}", self.conns[i].id, self.conns[i].peer));
+                self.emit(i, HandlerEvent::CircuitReqReceived { inbound_circuit_req: req, endpoint });
+                if let Some(o) = sync {
+                    self.quiesce(*o);
+                }
+            }
+            OpA::ToBeh { conn } => {
+                let c: Vec<usize> = self.open_conns().into_iter().filter(|i| !self.conns[*i].to_beh.is_empty()).collect();
+                if c.is_empty() {
+                    return;
+                }
+                self.deliver_to_beh(c[pick(*conn, c.len())]);
+            }
+            OpA::ToHandler { conn } => {
+                let c: Vec<usize> = self.open_conns().into_iter().filter(|i| !self.conns[*i].to_handler.is_empty()).collect();
+                if c.is_empty() {
+                    return;
+                }
+                self.deliver_to_handler(c[pick(*conn, c.len())]);
+            }
+            OpA::Progress { conn, which, ok } => {
+                let c: Vec<usize> = self.open_conns().into_iter().filter(|i| self.n_futs(*i) > 0).collect();
+                if c.is_empty() {
+                    return;
+                }
+                let i = c[pick(*conn, c.len())];
+                let n = self.n_futs(i);
+                self.progress(i, pick(*which, n), *ok);
+            }
+            OpA::Timeout { conn } => {
+                let c: Vec<usize> = self.open_conns().into_iter().filter(|i| self.conns[*i].active_res).collect();
+                if c.is_empty() {
+                    return;
+                }
+                let i = c[pick(*conn, c.len())];
+                let in_flight = self.accept_in_flight(i);
+                let cn = &mut self.conns[i];
+                cn.active_res = false;
+                cn.raced = false;
+                if in_flight {
+                    cn.expired_during_accept = true;
+                    self.reach.labels.insert("race:expiry-while-request-in-flight");
+                }
+                self.trace.push(format!("reservation timer of {:?} fires", cn.id));
+                self.emit(i, HandlerEvent::ReservationTimedOut {});
+            }
+            OpA::EndCircuit { pick: p, err } => {
+                let all: Vec<(usize, usize)> = self.open_conns().into_iter().flat_map(|i| (0..self.conns[i].circuits.len()).map(move |k| (i, k))).collect();
+                if all.is_empty() {
+                    return;
+                }
+                let (i, k) = all[pick(*p, all.len())];
+                let (circuit_id, dst_peer_id) = self.conns[i].circuits.remove(k);
+                let error = if *err { Some(std::io::ErrorKind::ConnectionReset.into()) } else { None };
+                self.trace.push(format!("circuit {circuit_id:?} ends"));
+                self.emit(i, HandlerEvent::CircuitClosed { circuit_id, dst_peer_id, error });
+            }
+            OpA::Flush => self.flush(),
+            OpA::Quiesce(o) => self.quiesce(*o),
+        }
+    }
+
+    fn active(&self) -> Active {
+        let mut a = Active::default();
+        for c in self.conns.iter().filter(|c| c.open) {
+            if c.active_res {
+                a.res.push(c.peer);
+                if c.raced {
+                    a.raced.insert(c.peer);
+                }
+            }
+            for (cid, dst_peer) in &c.circuits {
+                // the circuit is alive while both connections are; the destination connection is the
+                // one whose handler negotiated STOP for this circuit id
+                let dst_open = self.circ_dst.iter().find(|(x, _)| x == cid).map(|(_, j)| self.conns[*j].open).unwrap_or(false);
+                if !dst_open {
+                    continue;
+                }
+                let Some(d) = peer_index(dst_peer) else { continue };
+                a.circ.push((c.peer, d));
+                if self.newest == Some(*cid) {
+                    a.newest = Some((c.peer, d));
+                }
+            }
+        }
+        a
+    }
+}
+
+fn run_a(case: &CaseA) -> Outcome {
+    let mut w = WorldA::new(case.limits);
+    for (k, op) in case.ops.iter().enumerate() {
+        w.trace.push(format!("#{k} {op:?}"));
+        w.apply(op);
+        if let Some(p) = &w.panic {
+            // outside the statement (it is about counts, not crashes): measured, not asserted
+            let mut labels: Vec<&'static str> = w.reach.labels.iter().copied().collect();
+            if p.contains("valid connection") {
+                labels.push("side:behaviour-panic-valid-connection-after-expiry-race");
+                return Outcome::pass_l(false, labels);
+            }
+            return Outcome::fail("C47:behaviour-panicked", json!({"panic": p, "limits": case.limits, "trace": w.trace}));
+        }
+        let a = w.active();
+        let limits = w.limits;
+        if let Some((sig, detail)) = check_limits(limits, &a, &mut w.reach) {
+            return Outcome::fail(&sig, json!({"limits": case.limits, "after_op": k, "violation": detail, "trace": w.trace}));
+        }
+    }
+    let mut labels: Vec<&'static str> = w.reach.labels.iter().copied().collect();
+    if w.res_established > 0 {
+        labels.push("accepted:reservation");
+    }
+    if w.circ_established > 0 {
+        labels.push("accepted:circuit");
+    }
+    let nontrivial = w.denied_limit > 0 && (w.res_established > 0 || w.circ_established > 0);
+    Outcome::pass_l(nontrivial, labels)
+}
+
+
+// ---------------------------------------------------------------------------------------------
+// sub-check B: a relay Swarm in the simulated world; the harness plays the clients on the wire
+
+const HOP: &str = "/libp2p/circuit/relay/0.2.0/hop";
+const STOP: &str = "/libp2p/circuit/relay/0.2.0/stop";
+const ST_OK: u64 = 100;
+const ST_RESERVATION_REFUSED: u64 = 200;
+const ST_RESOURCE_LIMIT_EXCEEDED: u64 = 201;
+const ST_PERMISSION_DENIED: u64 = 202;
+const ST_NO_RESERVATION: u64 = 204;
+
+#[derive(Clone, Debug, PartialEq, Eq, Serialize, Deserialize)]
+pub enum OpB {
+    /// a client peer connects to the relay
+    Open { peer: u8 },
+    /// a client closes one of its connections
+    Close { conn: u16 },
+    /// HOP RESERVE on a connection
+    Reserve { conn: u16, settle: bool },
+    /// HOP CONNECT to destination peer `dst` on a connection
+    Connect { conn: u16, dst: u8, settle: bool },
+    /// the destination answers a STOP CONNECT: 0 = OK, 1 = PERMISSION_DENIED, 2 = closes the stream
+    Answer { pick: u16, how: u8, settle: bool },
+    /// an established circuit is closed by the source (0), the destination (1) or both (2)
+    EndCircuit { pick: u16, side: u8, settle: bool },
+    /// poll chosen runnable connection tasks, polling the relay swarm after each
+    Steps { picks: Vec<u16> },
+    Settle,
+}
+
+#[derive(Clone, Debug, Serialize, Deserialize)]
+pub struct CaseB {
+    pub limits: Limits,
+    pub ops: Vec<OpB>,
+}
+
+fn op_b_strategy() -> impl Strategy<Value = OpB> {
+    let settle = || prop::bool::weighted(0.8);
+    prop_oneof![
+        4 => (0u8..NPEERS as u8).prop_map(|peer| OpB::Open { peer }),
+        1 => any::<u16>().prop_map(|conn| OpB::Close { conn }),
+        6 => (any::<u16>(), settle()).prop_map(|(conn, settle)| OpB::Reserve { conn, settle }),
+        7 => (any::<u16>(), 0u8..NPEERS as u8, settle()).prop_map(|(conn, dst, settle)| OpB::Connect { conn, dst, settle }),
+        6 => (any::<u16>(), prop_oneof![8 => Just(0u8), 1 => Just(1u8), 1 => Just(2u8)], settle()).prop_map(|(pick, how, settle)| OpB::Answer { pick, how, settle }),
+        2 => (any::<u16>(), 0u8..3, settle()).prop_map(|(pick, side, settle)| OpB::EndCircuit { pick, side, settle }),
+        1 => prop::collection::vec(any::<u16>(), 1..12).prop_map(|picks| OpB::Steps { picks }),
+        1 => Just(OpB::Settle),
+    ]
+}
+
+fn case_b_strategy(max_ops: usize, hi: u8) -> impl Strategy<Value = CaseB> {
+    (limits_strategy(hi), prop::collection::vec(op_b_strategy(), 4..max_ops)).prop_map(|(limits, ops)| CaseB { limits, ops })
+}
+
+fn hop_reserve() -> Vec<u8> {
+    lp(&pb_varint(1, 0))
+}
+fn hop_connect(dst: &PeerId) -> Vec<u8> {
+    let mut m = pb_varint(1, 1);
+    m.extend(pb_bytes(2, &pb_bytes(1, &dst.to_bytes())));
+    lp(&m)
+}
+fn stop_status(status: u64) -> Vec<u8> {
+    let mut m = pb_varint(1, 1);
+    m.extend(pb_varint(4, status));
+    lp(&m)
+}
+fn varint_field(fields: &[(u32, u8, Vec<u8>)], field: u32) -> Option<u64> {
+    fields.iter().find(|(f, w, _)| *f == field && *w == 0).map(|(_, _, v)| {
+        let mut b = [0u8; 8];
+        b.copy_from_slice(&v[..8]);
+        u64::from_le_bytes(b)
+    })
+}
+
+/// What the relay answered on a HOP stream the harness opened.
+#[derive(Debug, PartialEq, Eq)]
+enum HopReply {
+    Waiting,
+    /// STATUS message with this code
+    Status(u64),
+    /// the stream ended, the protocol was refused or the answer is not a STATUS message
+    Broken(&'static str),
+}
+
+fn parse_hop_reply(buf: &[u8], eof: bool) -> HopReply {
+    let f = frames(buf);
+    if f.len() >= 2 && f[1] != format!("{HOP}\n").as_bytes() {
+        return HopReply::Broken("hop-not-supported");
+    }
+    if f.len() >= 3 {
+        let Some(fields) = pb_parse(&f[2]) else { return HopReply::Broken("undecodable") };
+        if varint_field(&fields, 1) != Some(2) {
+            return HopReply::Broken("not-a-status-message");
+        }
+        return match varint_field(&fields, 5) {
+            Some(s) => HopReply::Status(s),
+            None => HopReply::Broken("status-missing"),
+        };
+    }
+    if eof {
+        HopReply::Broken("stream-ended")
+    } else {
+        HopReply::Waiting
+    }
+}
+
+struct ConnB {
+    peer: usize,
+    ctl: MuxCtl,
+    addr: Multiaddr,
+    open: bool,
+    reserved: bool,
+}
+
+struct PendingRes {
+    conn: usize,
+    stream: Duplex,
+    buf: Vec<u8>,
+}
+
+struct PendingCon {
+    src_conn: usize,
+    dst: usize,
+    stream: Duplex,
+    buf: Vec<u8>,
+}
+
+struct StopReq {
+    dst_conn: usize,
+    stream: Option<Duplex>,
+    buf: Vec<u8>,
+    src: Option<usize>,
+    answered_ok: bool,
+    answered: bool,
+    dead: bool,
+}
+
+struct CircuitB {
+    src_conn: usize,
+    dst_conn: usize,
+    src_stream: Option<Duplex>,
+    dst_stream: Option<Duplex>,
+    alive: bool,
+}
+
+struct WorldB {
+    limits: Limits,
+    world: World<relay::Behaviour>,
+    conns: Vec<ConnB>,
+    pend_res: Vec<PendingRes>,
+    pend_con: Vec<PendingCon>,
+    stops: Vec<StopReq>,
+    circuits: Vec<CircuitB>,
+    seen_events: usize,
+    trace: Vec<String>,
+    reach: Reach,
+    ok_res: u32,
+    ok_circ: u32,
+    limit_refusals: u32,
+    settled: bool,
+    confused: Option<String>,
+}
+
+impl WorldB {
+    fn new(limits: Limits) -> Option<Self> {
+        let peers = [gen::peer(RELAY)];
+        let mut world: World<relay::Behaviour> =
+            World::new(&peers, |_, _| relay::Behaviour::new(gen::peer(RELAY), relay_config(limits)), |c| c.with_idle_connection_timeout(Duration::from_secs(86_400)));
+        world.nodes[0].swarm.behaviour_mut().set_status(Some(relay::Status::Enable));
+        if !world.listen(0, relay_addr()) {
+            return None;
+        }
+        let mut w = WorldB {
+            limits,
+            world,
+            conns: vec![],
+            pend_res: vec![],
+            pend_con: vec![],
+            stops: vec![],
+            circuits: vec![],
+            seen_events: 0,
+            trace: vec![],
+            reach: Reach::default(),
+            ok_res: 0,
+            ok_circ: 0,
+            limit_refusals: 0,
+            settled: true,
+            confused: None,
+        };
+        w.settle();
+        Some(w)
+    }
+
+    fn open_conns(&self) -> Vec<usize> {
+        (0..self.conns.len()).filter(|i| self.conns[*i].open).collect()
+    }
+
+    fn settle(&mut self) {
+        // the harness reacts to what it sees (multistream acknowledgements of STOP streams), which can
+        // enable further progress of the relay
+        for _ in 0..8 {
+            if !self.world.settle(400, &mut |_, _, _| {}) {
+                self.settled = false;
+                return;
+            }
+            if !self.observe() {
+                return;
+            }
+        }
+    }
+
+    fn conn_closed(&mut self, i: usize) {
+        let c = &mut self.conns[i];
+        if !c.open {
+            return;
+        }
+        c.open = false;
+        c.reserved = false;
+        self.pend_res.retain(|p| p.conn != i);
+        let mut aborted = vec![];
+        self.pend_con.retain(|p| {
+            if p.src_conn == i {
+                aborted.push((p.src_conn, p.dst));
+                false
+            } else {
+                true
+            }
+        });
+        for (s, d) in aborted {
+            self.kill_stops(self.conns[s].peer, d);
+        }
+        for s in self.stops.iter_mut().filter(|s| s.dst_conn == i) {
+            s.dead = true;
+            s.stream = None;
+        }
+        for c in self.circuits.iter_mut().filter(|c| c.src_conn == i || c.dst_conn == i) {
+            c.alive = false;
+            c.src_stream = None;
+            c.dst_stream = None;
+        }
+    }
+
+    /// the CONNECT of (source peer, destination peer) is over without a circuit: STOP requests that
+    /// belong to it can no longer be linked
+    fn kill_stops(&mut self, src: usize, dst: usize) {
+        for s in self.stops.iter_mut() {
+            if !s.dead && s.src == Some(src) && self.conns[s.dst_conn].peer == dst {
+                s.dead = true;
+            }
+        }
+    }
+
+    /// Look at everything the relay sent; true when the harness wrote something in response.
+    fn observe(&mut self) -> bool {
+        let mut wrote = false;
+        // connection events of the relay swarm
+        let evs: Vec<Ev> = self.world.nodes[0].events[self.seen_events..].to_vec();
+        self.seen_events = self.world.nodes[0].events.len();
+        for ev in evs {
+            if let Ev::Closed { conn, .. } = &ev {
+                // the relay closed (or noticed the close of) a connection: find it by id
+                let addr = self.world.nodes[0].events.iter().find_map(|e| match e {
+                    Ev::Established { conn: c, addr, .. } if c == conn => Some(addr.clone()),
+                    _ => None,
+                });
+                if let Some(i) = addr.and_then(|a| self.conns.iter().position(|c| c.addr == a)) {
+                    if self.conns[i].open {
+                        self.trace.push(format!("  relay reports connection {i} closed"));
+                        self.conn_closed(i);
+                    }
+                }
+            }
+        }
+        // STOP streams the relay opened towards destinations
+        for i in self.open_conns() {
+            for mut s in self.conns[i].ctl.take_peer_inbound() {
+                let mut ack = ms_line("/multistream/1.0.0");
+                ack.extend(ms_line(STOP));
+                write_all(&mut s, &ack);
+                wrote = true;
+                self.stops.push(StopReq { dst_conn: i, stream: Some(s), buf: vec![], src: None, answered_ok: false, answered: false, dead: false });
+            }
+        }
+        for k in 0..self.stops.len() {
+            let s = &mut self.stops[k];
+            if s.src.is_some() || s.dead {
+                continue;
+            }
+            let Some(st) = s.stream.as_mut() else { continue };
+            let eof = drain_into(st, &mut s.buf);
+            let f = frames(&s.buf);
+            if f.len() >= 3 {
+                let src = pb_parse(&f[2]).and_then(|fields| {
+                    let peer = fields.iter().find(|(f, w, _)| *f == 2 && *w == 2)?.2.clone();
+                    let id = pb_parse(&peer)?.into_iter().find(|(f, w, _)| *f == 1 && *w == 2)?.2;
+                    PeerId::from_bytes(&id).ok()
+                });
+                match src.as_ref().and_then(peer_index) {
+                    Some(p) => {
+                        s.src = Some(p);
+                        let d = s.dst_conn;
+                        self.trace.push(format!("  relay -> connection {d}: STOP CONNECT from peer {p}"));
+                    }
+                    None => self.confused = Some("undecodable STOP CONNECT".into()),
+                }
+            } else if eof {
+                s.dead = true;
+            }
+        }
+        // answers to RESERVE
+        let mut k = 0;
+        while k < self.pend_res.len() {
+            let p = &mut self.pend_res[k];
+            let eof = drain_into(&mut p.stream, &mut p.buf);
+            match parse_hop_reply(&p.buf, eof) {
+                HopReply::Waiting => {
+                    k += 1;
+                    continue;
+                }
+                HopReply::Status(st) => {
+                    let conn = p.conn;
+                    self.trace.push(format!("  relay -> connection {conn}: RESERVE status {st}"));
+                    self.status_label(st);
+                    if st == ST_OK {
+                        self.ok_res += 1;
+                        if self.conns[conn].reserved {
+                            self.reach.labels.insert("reservation:renewed");
+                        }
+                        self.conns[conn].reserved = true;
+                    }
+                }
+                HopReply::Broken(why) => {
+                    self.trace.push(format!("  RESERVE on connection {} broken: {why}", p.conn));
+                    self.reach.labels.insert("request:broken");
+                }
+            }
+            self.pend_res.remove(k);
+        }
+        // answers to CONNECT
+        let mut k = 0;
+        while k < self.pend_con.len() {
+            let p = &mut self.pend_con[k];
+            let eof = drain_into(&mut p.stream, &mut p.buf);
+            let reply = parse_hop_reply(&p.buf, eof);
+            if reply == HopReply::Waiting {
+                k += 1;
+                continue;
+            }
+            let p = self.pend_con.remove(k);
+            let src_peer = self.conns[p.src_conn].peer;
+            match reply {
+                HopReply::Status(ST_OK) => {
+                    self.trace.push(format!("  relay -> connection {}: CONNECT to peer {} status OK", p.src_conn, p.dst));
+                    self.status_label(ST_OK);
+                    let link = self.stops.iter().position(|s| !s.dead && s.answered_ok && s.src == Some(src_peer) && self.conns[s.dst_conn].peer == p.dst);
+                    match link {
+                        Some(j) => {
+                            let s = &mut self.stops[j];
+                            s.dead = true;
+                            self.ok_circ += 1;
+                            self.circuits.push(CircuitB { src_conn: p.src_conn, dst_conn: s.dst_conn, src_stream: Some(p.stream), dst_stream: s.stream.take(), alive: true });
+                        }
+                        None => self.confused = Some("CONNECT answered OK without an accepted STOP request".into()),
+                    }
+                }
+                HopReply::Status(st) => {
+                    self.trace.push(format!("  relay -> connection {}: CONNECT to peer {} status {st}", p.src_conn, p.dst));
+                    self.status_label(st);
+                    self.kill_stops(src_peer, p.dst);
+                }
+                HopReply::Broken(why) => {
+                    self.trace.push(format!("  CONNECT on connection {} broken: {why}", p.src_conn));
+                    self.reach.labels.insert("request:broken");
+                    self.kill_stops(src_peer, p.dst);
+                }
+                HopReply::Waiting => unreachable!(),
+            }
+        }
+        wrote
+    }
+
+    fn status_label(&mut self, st: u64) {
+        let l = match st {
+            ST_OK => "status:OK",
+            ST_RESERVATION_REFUSED => "status:RESERVATION_REFUSED",
+            ST_RESOURCE_LIMIT_EXCEEDED => "status:RESOURCE_LIMIT_EXCEEDED",
+            ST_PERMISSION_DENIED => "status:PERMISSION_DENIED",
+            ST_NO_RESERVATION => "status:NO_RESERVATION",
+            203 => "status:CONNECTION_FAILED",
+            _ => "status:other",
+        };
+        self.reach.labels.insert(l);
+        if st == ST_RESOURCE_LIMIT_EXCEEDED || st == ST_RESERVATION_REFUSED {
+            self.limit_refusals += 1;
+        }
+    }
+
+    fn open_hop(&mut self, i: usize, msg: Vec<u8>) -> Duplex {
+        let mut s = self.conns[i].ctl.remote_open();
+        let mut hello = ms_line("/multistream/1.0.0");
+        hello.extend(ms_line(HOP));
+        hello.extend(msg);
+        write_all(&mut s, &hello);
+        s
+    }
+
+    fn after(&mut self, settle: bool) {
+        if settle {
+            self.settle();
+        } else {
+            self.observe();
+        }
+    }
+
+    fn apply(&mut self, op: &OpB) {
+        match op {
+            OpB::Open { peer } => {
+                let peer = *peer as usize % NPEERS;
+                let of_peer = self.conns.iter().filter(|c| c.open && c.peer == peer).count();
+                if of_peer >= 3 || self.open_conns().len() >= 9 {
+                    return;
+                }
+                let addr = client_addr(peer, self.conns.len());
+                let Some(k) = self.world.incoming_phantom(0, 0, addr.clone()) else {
+                    self.confused = Some("listener gone".into());
+                    return;
+                };
+                self.world.resolve_incoming(k, Some(client(peer)));
+                let ctl = self.world.incoming[k].ctl.clone();
+                self.trace.push(format!("connection {} of peer {peer} opens", self.conns.len()));
+                self.conns.push(ConnB { peer, ctl, addr, open: true, reserved: false });
+                self.settle();
+            }
+            OpB::Close { conn } => {
+                let open = self.open_conns();
+                if open.is_empty() {
+                    return;
+                }
+                let i = open[pick(*conn, open.len())];
+                self.trace.push(format!("connection {i} closes"));
+                self.conns[i].ctl.remote_close();
+                self.conn_closed(i);
+                self.settle();
+            }
+            OpB::Reserve { conn, settle } => {
+                let open = self.open_conns();
+                if open.is_empty() {
+                    return;
+                }
+                let i = open[pick(*conn, open.len())];
+                self.trace.push(format!("RESERVE on connection {i} (peer {})", self.conns[i].peer));
+                let stream = self.open_hop(i, hop_reserve());
+                self.pend_res.push(PendingRes { conn: i, stream, buf: vec![] });
+                self.after(*settle);
+            }
+            OpB::Connect { conn, dst, settle } => {
+                let open = self.open_conns();
+                if open.is_empty() {
+                    return;
+                }
+                let i = open[pick(*conn, open.len())];
+                let dst = *dst as usize % NPEERS;
+                let src_peer = self.conns[i].peer;
+                // one CONNECT in flight per (source peer, destination peer): keeps the attribution of
+                // STOP requests to CONNECT requests unambiguous
+                if self.pend_con.iter().any(|p| self.conns[p.src_conn].peer == src_peer && p.dst == dst) {
+                    return;
+                }
+                self.trace.push(format!("CONNECT on connection {i} (peer {src_peer}) to peer {dst}"));
+                let stream = self.open_hop(i, hop_connect(&client(dst)));
+                self.pend_con.push(PendingCon { src_conn: i, dst, stream, buf: vec![] });
+                self.after(*settle);
+            }
+            OpB::Answer { pick: p, how, settle } => {
+                let c: Vec<usize> = (0..self.stops.len()).filter(|k| !self.stops[*k].dead && !self.stops[*k].answered && self.stops[*k].src.is_some()).collect();
+                if c.is_empty() {
+                    return;
+                }
+                let k = c[pick(*p, c.len())];
+                let s = &mut self.stops[k];
+                s.answered = true;
+                self.trace.push(format!("destination connection {} answers STOP CONNECT from peer {:?}: {how}", s.dst_conn, s.src));
+                match how {
+                    0 => {
+                        s.answered_ok = true;
+                        if let Some(st) = s.stream.as_mut() {
+                            write_all(st, &stop_status(ST_OK));
+                        }
+                    }
+                    1 => {
+                        if let Some(st) = s.stream.as_mut() {
+                            write_all(st, &stop_status(ST_PERMISSION_DENIED));
+                        }
+                    }
+                    _ => s.stream = None,
+                }
+                self.after(*settle);
+            }
+            OpB::EndCircuit { pick: p, side, settle } => {
+                let c: Vec<usize> = (0..self.circuits.len()).filter(|k| self.circuits[*k].alive).collect();
+                if c.is_empty() {
+                    return;
+                }
+                let k = c[pick(*p, c.len())];
+                let ci = &mut self.circuits[k];
+                ci.alive = false;
+                if *side == 0 || *side == 2 {
+                    ci.src_stream = None;
+                }
+                if *side == 1 || *side == 2 {
+                    ci.dst_stream = None;
+                }
+                self.trace.push(format!("circuit {k} ends (side {side})"));
+                self.after(*settle);
+            }
+            OpB::Steps { picks } => {
+                for p in picks {
+                    self.world.exec.step(*p);
+                    let mut n = 0;
+                    while self.world.woken(0) && n < 8 {
+                        self.world.poll(0);
+                        n += 1;
+                    }
+                }
+                self.observe();
+            }
+            OpB::Settle => self.settle(),
+        }
+    }
+
+    fn active(&self) -> Active {
+        let mut a = Active::default();
+        for c in self.conns.iter().filter(|c| c.open && c.reserved) {
+            a.res.push(c.peer);
+        }
+        for c in self.circuits.iter().filter(|c| c.alive) {
+            a.circ.push((self.conns[c.src_conn].peer, self.conns[c.dst_conn].peer));
+        }
+        if let Some(c) = self.circuits.last().filter(|c| c.alive) {
+            a.newest = Some((self.conns[c.src_conn].peer, self.conns[c.dst_conn].peer));
+        }
+        a
+    }
+}
+
+fn run_b(case: &CaseB) -> Outcome {
+    let out = run_b_inner(case);
+    release_phantoms();
+    out
+}
+
+fn run_b_inner(case: &CaseB) -> Outcome {
+    let Some(mut w) = WorldB::new(case.limits) else { return Outcome::Inconclusive("relay world could not be set up".into()) };
+    for (k, op) in case.ops.iter().enumerate() {
+        w.trace.push(format!("#{k} {op:?}"));
+        w.apply(op);
+        if !w.settled {
+            return Outcome::Inconclusive("world did not settle within the step bound".into());
+        }
+        if let Some(c) = &w.confused {
+            return Outcome::fail("C47:harness-lost-track", json!({"why": c, "limits": case.limits, "trace": w.trace}));
+        }
+        let a = w.active();
+        let limits = w.limits;
+        if let Some((sig, detail)) = check_limits(limits, &a, &mut w.reach) {
+            return Outcome::fail(&sig, json!({"limits": case.limits, "after_op": k, "violation": detail, "trace": w.trace}));
+        }
+    }
+    let mut labels: Vec<&'static str> = w.reach.labels.iter().copied().collect();
+    if w.ok_res > 0 {
+        labels.push("accepted:reservation");
+    }
+    if w.ok_circ > 0 {
+        labels.push("accepted:circuit");
+    }
+    let nontrivial = w.limit_refusals > 0 && (w.ok_res > 0 || w.ok_circ > 0);
+    Outcome::pass_l(nontrivial, labels)
+}
+
+// ---------------------------------------------------------------------------------------------
+
+pub fn run(ctx: &mut Ctx) {
+    ctx.assume("relay rate limiters are removed (reservation_rate_limiters / circuit_src_rate_limiters empty): only the four count limits can refuse a request for RESOURCE_LIMIT_EXCEEDED");
+    ctx.assume("behaviour-direct: the harness' reduced model of relay::behaviour::handler::Handler (which event follows which command, per-connection FIFO order in both directions, events already emitted are delivered before ConnectionClosed) is the contract a Swarm enforces; streams inside the request values are real libp2p_swarm::Stream objects minted from an unrelated connection and never touched by the behaviour");
+    ctx.assume("a reservation counts as active from the moment its OK response has been written until its timer fires or its connection closes; a circuit counts from the moment the OK response to the source has been written until it ends or either connection closes (lower bounds of what the relay tracks)");
+
+    let hi = ctx.tier.sel(3u8, 4u8);
+    let max_ops = ctx.tier.sel(40usize, 70usize);
+    ctx.check::<CaseA>(
+        "behaviour-direct",
+        "limits 1..3 (per peer 1..2), 4 client peers with up to 3 connections each, 4..40 ops (open/close connection, RESERVE, CONNECT, deliver handler event, deliver command, complete handler I/O with ok/error, reservation timer fires, circuit ends, flush, quiesce); after every op the numbers of certainly-active reservations (per peer, total) and circuits (involving a peer, total) must not exceed the configured maxima; non-trivial = at least one request refused with RESOURCE_LIMIT_EXCEEDED and at least one reservation or circuit established",
+        ctx.n(30_000, 900_000),
+        &move || case_a_strategy(max_ops, hi).boxed(),
+        &run_a,
+    );
+
+    ctx.assume("world: the harness' hand-written multistream-select / protobuf encoders and its reading of the relay's answers are correct (a request whose answer cannot be read is never counted as active); which of several reserved connections of a destination the relay uses depends on HashMap order inside the relay, so a replay can take a different but equally legal path");
+    let max_ops_b = ctx.tier.sel(36usize, 60usize);
+    ctx.check::<CaseB>(
+        "world",
+        "a real relay Swarm (limits 1..3, per peer 1..2, no rate limiters, status Enable) on the simulated transport; the harness plays 4 client peers with up to 3 connections each by hand on the wire: HOP RESERVE / CONNECT, answers the relay's STOP CONNECT with OK / PERMISSION_DENIED / stream close / never, ends circuits, closes connections, partial or full scheduling; after every op the reservations and circuits the relay confirmed with STATUS OK and the harness has not ended must be within the configured maxima; non-trivial = at least one RESOURCE_LIMIT_EXCEEDED answer and at least one OK answer",
+        ctx.n(4_000, 120_000),
+        &move || case_b_strategy(max_ops_b, hi).boxed(),
+        &run_b,
+    );
+}
